@@ -59,6 +59,13 @@ def build_type(t: Tape, g: TGrammar, depth=None, in_union=False, top=True):
     def sub(in_u=False):
         return build_type(t, g, depth - 1, in_u, False)
 
+    def elem():
+        # a bare `Any` is never a tuple element or a Generator argument of a type MonkeyType can infer or produce (Any stands
+        # for the element type of an EMPTY list/set/dict, or for a collapsed union, which never sits directly in those
+        # slots): Tuple[Any, Any] next to Tuple[B, B] is not in the property's domain
+        x = sub()
+        return int if x is Any else x
+
     if kind == "List":
         return List[sub()]
     if kind == "Set":
@@ -69,9 +76,9 @@ def build_type(t: Tape, g: TGrammar, depth=None, in_union=False, top=True):
         return DefaultDict[sub(), sub()]
     if kind == "Tuple":
         n = 1 + t.take(g.max_tuple)
-        return Tuple[tuple(sub() for _ in range(n))]
+        return Tuple[tuple(elem() for _ in range(n))]
     if kind == "TupleVar":
-        return Tuple[sub(), ...]
+        return Tuple[elem(), ...]
     if kind == "TupleEmpty":
         return Tuple[()]
     if kind == "Type":
@@ -81,13 +88,13 @@ def build_type(t: Tape, g: TGrammar, depth=None, in_union=False, top=True):
     if kind == "IteratorAny":
         return Iterator[Any]
     if kind == "Generator":
-        y = sub()
+        y = elem()
         tail = t.take(3)  # (None, None) | (None, R) | (S, R)
         if tail == 0:
             return Generator[y, None, None]
         if tail == 1:
-            return Generator[y, None, sub()]
-        return Generator[y, sub(), sub()]
+            return Generator[y, None, elem()]
+        return Generator[y, elem(), elem()]
     if kind == "Union":
         n = 2 + t.take(g.max_union - 1)
         return Union[tuple(sub(True) for _ in range(n))]
